@@ -144,6 +144,19 @@ def build(case):
         n = case["n"]
         w = np.ones(n) / n
         return [base.copy() for _ in range(n)], [rho.copy() for _ in range(n)], None, [float(x) for x in w], w
+    if case.get("kind") == "nearorth":
+        # two pure states that are nearly, but not exactly, orthogonal: |<a|b>| = c with c = 5e-3 or 2e-3, unnormalised exclusion value
+        # 1 - sqrt(1 - c^2) = 1.25e-5 resp. 2e-6 (clearly positive) - added after seeded change C11-12, whose relative tolerance at 1 called
+        # such pairs antidistinguishable
+        d, c = case["d"], case["c"]
+        U = catalog.unitary(d, case["u"])
+        a = U[:, 0]
+        b = c * np.exp(0.7j) * U[:, 0] + np.sqrt(1 - c * c) * U[:, 1]
+        kets = [a, b]
+        rhos = [sc.as_density(k) for k in kets]
+        inputs = [k.reshape(-1, 1).copy() for k in kets] if case["form"] == "col" else [r.copy() for r in rhos]
+        w = np.ones(2) / 2
+        return inputs, rhos, kets, [0.5, 0.5], w
     return en.build(case)
 
 
@@ -201,6 +214,11 @@ def min_error_cases(tier, seed):
     for d, keys in en.mixed_subsets(tier):
         for prior in en.prior_keys(len(keys)):
             yield {"d": d, "keys": keys, "kind": "dens", "prior": prior, "form": "dm"}
+    # ensembles that list a state twice (cf. seeded change C12-11, which merged repeated states and summed their priors)
+    for j, (d, keys) in enumerate(en.ket_subsets(tier)):
+        if len(keys) == 2 and j % (6 if tier == "quick" else 2) == 0:
+            yield {"d": d, "keys": [keys[0], keys[1], keys[0]], "kind": "ket", "prior": "ramp", "form": "col"}
+            yield {"d": d, "keys": [keys[1], keys[1], keys[0]], "kind": "ket", "prior": "uniform", "form": "dm"}
 
 
 def check_exclusion_values(tag, val, rhos, w, b, problems):
@@ -304,6 +322,11 @@ def antidist_cases(tier, seed):
             for pattern in range(len(en.GRAM_PHASES)):
                 if en.gram_kets(n_, r, pattern) is not None:
                     yield {"kind": "gram", "n": n_, "r": r, "pattern": pattern, "form": "col"}
+    for d in (2, 3):
+        for c_ in (5e-3, 2e-3):
+            for u in ("I", "g0"):
+                for form in ("col", "dm"):
+                    yield {"kind": "nearorth", "d": d, "c": c_, "u": u, "form": form}
     for d in en.dims(tier):
         for key in ("e0", "g0"):
             for n in (2, 3):
